@@ -352,14 +352,12 @@ def eval (hook : String → M α (Val α)) : Expr α → M α (Val α)
     match autoDim name subs.length s with
     | .error e => .error e
     | .ok (_, s0) =>
-      match evalInts hook subs s0 with
+      match evalSubs hook subs (s0.getVar name).dims 0 s0 with
       | .error e => .error e
-      | .ok (is, s1) =>
-        match resolveCell name is s1 with
-        | .error e => .error e
-        | .ok (_, s2) =>
-          let v := s2.getVar name
-          if isStrName name then .ok (.str v.strVal, s2) else .ok (.num v.numVal, s2)
+      | .ok (k, s1) =>
+        let s2 := if subs.isNil then s1 else s1.setVar name { s1.getVar name with ptr := some k }
+        let v := s2.getVar name
+        if isStrName name then .ok (.str v.strVal, s2) else .ok (.num v.numVal, s2)
   | .un f e => fun s =>
     match eval hook e s with
     | .error e => .error e
@@ -431,6 +429,22 @@ def eval (hook : String → M α (Val α)) : Expr α → M α (Val α)
           match evalInt hook j s2 with
           | .error e => .error e
           | .ok (jj, s3) => .ok (.str (midStr st ii (some jj)), s3)
+  | .fmt isE x w p => fun s =>
+    match eval hook x s with
+    | .error e => .error e
+    | .ok (vx, s1) =>
+      match needNum vx with
+      | .error e => .error e
+      | .ok nx =>
+        match evalCInt hook w s1 with
+        | .error e => .error e
+        | .ok (wi, s2) =>
+          match evalCInt hook p s2 with
+          | .error e => .error e
+          | .ok (pi, s3) =>
+            if pi > 4000 ∨ wi.natAbs > maxStr then .error .resource else
+            let cap : Nat := (if wi < 256 then 256 else wi.toNat) - 1
+            .ok (.str (BNum.fmtC isE wi pi cap nx), if BNum.isNaN nx then { s3 with ub := true } else s3)
   | .bin op a b => fun s =>
     match eval hook a s with
     | .error e => .error e
@@ -449,6 +463,36 @@ def evalInt (hook : String → M α (Val α)) : Expr α → M α Int
       | .error e => .error e
       | .ok x => roundM x s1
 
+/-- `(int) realexpr`: truncation toward zero; outside the `int` range the conversion is undefined in C -/
+def evalCInt (hook : String → M α (Val α)) : Expr α → M α Int
+  | e => fun s =>
+    match eval hook e s with
+    | .error e => .error e
+    | .ok (v, s1) =>
+      match needNum v with
+      | .error e => .error e
+      | .ok x =>
+        match toLongM x s1 with
+        | .error e => .error e
+        | .ok (i, s2) =>
+          if i < -2147483648 ∨ i > 2147483647 then .ok (wrapInt32 i, { s2 with ub := true }) else .ok (i, s2)
+
+/-- the subscript loop of `findvar`: for each dimension `intexpr`, bound test, `k = k*dim + j`; too few subscripts
+fail at `require(tokcomma)`, too many at `require(tokrp)` (syntax errors) — in the order the C code meets them.
+`none`: no subscripts at all (plain variable). -/
+def evalSubs (hook : String → M α (Val α)) : Args α → List Nat → Nat → M α Nat
+  | .nil, dims, k => fun s =>
+    if dims.isEmpty then .ok (k, s) else .error (.syntax "missing ,")
+  | .cons e r, dims, k => fun s =>
+    match dims with
+    | [] => .error (.syntax "missing )")
+    | d :: ds =>
+      match evalInt hook e s with
+      | .error e => .error e
+      | .ok (j, s1) =>
+        if j < 0 ∨ j ≥ Int.ofNat d then .error .badSubscript
+        else evalSubs hook r ds (k * d + j.toNat) s1
+
 def evalInts (hook : String → M α (Val α)) : Args α → M α (List Int)
   | .nil => fun s => .ok ([], s)
   | .cons e r => fun s =>
@@ -466,9 +510,9 @@ def findVar (hook : String → M α (Val α)) (name : String) (subs : Args α) :
   match autoDim name subs.length s with
   | .error e => .error e
   | .ok (_, s0) =>
-    match evalInts hook subs s0 with
+    match evalSubs hook subs (s0.getVar name).dims 0 s0 with
     | .error e => .error e
-    | .ok (is, s1) => resolveCell name is s1
+    | .ok (k, s1) => .ok ((), if subs.isNil then s1 else s1.setVar name { s1.getVar name with ptr := some k })
 
 end Eval
 
